@@ -9,17 +9,17 @@
    F/fo (floats and their operations) are universally quantified: nothing is assumed about
    them except where a theorem lists hypotheses. *)
 From Coq Require Import List ZArith Bool.
-From YV Require Import Common.Corr Model.Scalars Gen.ScalarOps
-                       Lemmas.Scalars Lemmas.ScalarsTable Lemmas.ScalarsEval.
+From YV Require Import Common.Corr Model.Scalars Model.ScalarsB64 Gen.ScalarOps
+                       Lemmas.Scalars Lemmas.ScalarsTable Lemmas.ScalarsEval Lemmas.ScalarsB64 Lemmas.ScalarsSets.
 Import ListNotations.
 
 (* ---- which overload runs: for every binary operator and every pair of kinds among
-   null/bool/int/float/str/list/tuple, the dispatch over the regenerated rows is the
+   null/bool/int/float/str/list/tuple/set/dict, the dispatch over the regenerated rows is the
    expected payload or NoMatch (expected2 never says Ambiguous): numbers with numbers,
    strings with strings, the three null overloads of the ordering operators, repetition
    with a genuine integer only, `=`/`!=` for everything, NoMatch for unrelated kinds *)
 Theorem C15_dispatch_table : forall cf o a b, In o binary_ops -> In a grid_kinds -> In b grid_kinds ->
-  dispatch (registry_of cf o) [a; b] = expected2 o a b.
+  dispatch (registry_of cf o) [a; b] = expected2 cf o a b.
 Proof. exact dispatch_table2. Qed.
 
 Theorem C15_dispatch_table_unary : forall cf o a, In o unary_ops -> In a grid_kinds ->
@@ -27,9 +27,11 @@ Theorem C15_dispatch_table_unary : forall cf o a, In o unary_ops -> In a grid_ki
 Proof. exact dispatch_table1. Qed.
 
 (* at most ONE registered overload accepts such a pair: the outcome cannot depend on the
-   order in which the runner enumerates the layer, nor on the specialization rule *)
+   order in which the runner enumerates the layer, nor on the specialization rule - except
+   dict + dict where dictionaries count as iterables (two acceptors, combine_dicts is the
+   specialization; C15_dispatch_table says it wins) *)
 Theorem C15_dispatch_unique : forall cf o a b, In o binary_ops -> In a grid_kinds -> In b grid_kinds ->
-  length (acceptors (registry_of cf o) [a; b]) <= 1.
+  length (acceptors (registry_of cf o) [a; b]) <= 1 \/ dict_add_case cf o a b = true.
 Proof. exact dispatch_unique2. Qed.
 
 Theorem C15_never_ambiguous : forall cf F fo o x y, In o binary_ops ->
@@ -113,6 +115,37 @@ Theorem C15_order_consistent_num : forall cf F fo (nan : F -> bool),
   forall x y, number F nan x -> number F nan y -> order_laws cf F fo x y.
 Proof. exact order_num. Qed.
 
+(* ---- the same with the float premises DISCHARGED for IEEE binary64 (Flocq's binary_float 53
+   1024 with its Bcompare; B64.cmpZ compares an integer exactly with (+-m)*2^e): for every
+   float record whose two comparison fields are those (the arithmetic fields play no role in
+   the statement; B64.ops, the instance the correspondence runs, is one: C15_binary64_instance) *)
+Theorem C15_order_consistent_num_binary64 : forall (cf : cfg) (fo : fops B64.t),
+  fo_compare B64.t fo = B64.compare -> fo_cmpZ B64.t fo = B64.cmpZ ->
+  forall x y, number B64.t B64.nan x -> number B64.t B64.nan y -> order_laws cf B64.t fo x y.
+Proof. exact order_num_binary64. Qed.
+
+Theorem C15_binary64_compare_laws :
+  (forall f g : B64.t, B64.compare g f = option_map CompOpp (B64.compare f g)) /\
+  (forall f g : B64.t, B64.compare f g = None <-> (B64.nan f = true \/ B64.nan g = true)) /\
+  (forall (z : Z) (f : B64.t), B64.cmpZ z f = None <-> B64.nan f = true).
+Proof. exact (conj b64_compare_antisym (conj b64_compare_nan b64_cmpZ_nan)). Qed.
+
+(* integer/float comparison is exact: it is Qcompare of the integer with the rational the
+   float denotes (b64_value f = (+-m)*2^e); an infinity is above/below every integer *)
+Theorem C15_binary64_cmpZ_exact : forall (z : Z) (f : B64.t),
+  match b64_value f with
+  | Some q => B64.cmpZ z f = Some (QArith_base.Qcompare (QArith_base.inject_Z z) q)
+  | None => match f with
+            | BinarySingleNaN.B754_infinity s => B64.cmpZ z f = Some (if s then Gt else Lt)
+            | _ => B64.cmpZ z f = None
+            end
+  end.
+Proof. exact b64_cmpZ_exact. Qed.
+
+Example C15_binary64_instance :
+  fo_compare B64.t B64.ops = B64.compare /\ fo_cmpZ B64.t B64.ops = B64.cmpZ.
+Proof. exact b64_ops_fields. Qed.
+
 (* ---- null orders below every non-null value - of ANY kind of the model, also the
    non-scalar ones - and is neither below nor above itself *)
 Theorem C15_null_least : forall cf F fo (v : val F), kind_of F v <> KNull ->
@@ -153,6 +186,43 @@ Theorem C15_repetition : forall cf F fo (s : list Z) (n : Z),
   (forall r, ev cf F fo OMul [VStr s; VInt n] = RVal (VStr r) -> (0 < n)%Z ->
              Z.of_nat (length r) = (Z.of_nat (length s) * n)%Z).
 Proof. exact repetition_laws. Qed.
+
+(* ---- sets (of integers): < <= > >= are the subset relations - a PARTIAL order: reflexive,
+   antisymmetric (up to =), transitive; < is <= without =; > and >= are the mirrors; never
+   both < and > - but not total: *)
+Theorem C15_set_order_partial : forall cf F fo (a b c : list Z),
+  holds cf F fo OLe (VSet a) (VSet a) /\
+  (holds cf F fo OLe (VSet a) (VSet b) -> holds cf F fo OLe (VSet b) (VSet a) -> holds cf F fo OEq (VSet a) (VSet b)) /\
+  (holds cf F fo OLe (VSet a) (VSet b) -> holds cf F fo OLe (VSet b) (VSet c) -> holds cf F fo OLe (VSet a) (VSet c)) /\
+  (holds cf F fo OLt (VSet a) (VSet b) -> holds cf F fo OLt (VSet b) (VSet c) -> holds cf F fo OLt (VSet a) (VSet c)) /\
+  (holds cf F fo OLt (VSet a) (VSet b) <-> holds cf F fo OLe (VSet a) (VSet b) /\ ~ holds cf F fo OEq (VSet a) (VSet b)) /\
+  (holds cf F fo OGt (VSet a) (VSet b) <-> holds cf F fo OLt (VSet b) (VSet a)) /\
+  (holds cf F fo OGe (VSet a) (VSet b) <-> holds cf F fo OLe (VSet b) (VSet a)) /\
+  ~ (holds cf F fo OLt (VSet a) (VSet b) /\ holds cf F fo OGt (VSet a) (VSet b)).
+Proof. exact set_order_partial. Qed.
+
+Theorem C15_set_order_meaning : forall cf F fo (a b : list Z),
+  (holds cf F fo OLe (VSet a) (VSet b) <-> (forall x, In x a -> In x b)) /\
+  (holds cf F fo OGe (VSet a) (VSet b) <-> (forall x, In x b -> In x a)) /\
+  (holds cf F fo OLt (VSet a) (VSet b) <-> (forall x, In x a -> In x b) /\ ~ (forall x, In x b -> In x a)) /\
+  (holds cf F fo OGt (VSet a) (VSet b) <-> (forall x, In x b -> In x a) /\ ~ (forall x, In x a -> In x b)) /\
+  (holds cf F fo OEq (VSet a) (VSet b) <-> (forall x, In x a <-> In x b)).
+Proof. exact holds_set. Qed.
+
+(* trichotomy (exactly one of <, =, >), which holds for numbers and strings, is FALSE for sets *)
+Theorem C15_set_trichotomy_refuted : forall cf F fo, exists a b : list Z,
+  fails cf F fo OLt (VSet a) (VSet b) /\ fails cf F fo OEq (VSet a) (VSet b) /\ fails cf F fo OGt (VSet a) (VSet b) /\
+  fails cf F fo OLe (VSet a) (VSet b) /\ fails cf F fo OGe (VSet a) (VSet b).
+Proof. exact set_trichotomy_refuted. Qed.
+
+(* set difference, frozenset union, dict merge (right operand wins), membership *)
+Theorem C15_set_dict_ops : forall cf F fo (a b : list Z) (d e : list (Z * Z)),
+  (exists r, ev cf F fo OSub [VSet a; VSet b] = RVal (VSet r) /\ forall x, In x r <-> In x a /\ ~ In x b) /\
+  (exists r, ev cf F fo OAdd [VSet a; VSet b] = RVal (VSet r) /\ forall x, In x r <-> In x a \/ In x b) /\
+  (exists r, ev cf F fo OAdd [VDict d; VDict e] = RVal (VDict r) /\
+             forall k, dlookup k r = match dlookup k e with Some v => Some v | None => dlookup k d end) /\
+  (forall z : Z, ev cf F fo OIn [VInt z; VSet a] = RVal (VBool true) <-> In z a).
+Proof. exact set_dict_ops. Qed.
 
 (* ---- the regenerated file is well-formed: kinds in the model's order, every mapped
    overload has one row per argument and one column per kind *)
@@ -212,5 +282,7 @@ Print Assumptions C15_div_mod.
 Print Assumptions C15_order_consistent_int.
 Print Assumptions C15_order_consistent_str.
 Print Assumptions C15_order_consistent_num.
+Print Assumptions C15_order_consistent_num_binary64.
+Print Assumptions C15_binary64_cmpZ_exact.
 Print Assumptions C15_null_least.
 Print Assumptions C15_bool_not_number.
